@@ -293,7 +293,7 @@ fn child_hist(args: &[String]) -> i32 {
             obs2.lock().unwrap().insert(issued, observe(st, &main_uri));
         }
     };
-    let out = lspsched::run(RunCfg { labels, prefix: vec![], issue_only_at_quiescence: true }, state.clone(), factory, &mut on_q);
+    let out = lspsched::run(RunCfg { labels, prefix: vec![], issue_only_at_quiescence: true, follow: None }, state.clone(), factory, &mut on_q);
     let res = HistOut {
         obs: obs.lock().unwrap().values().cloned().collect(),
         error: out.error.clone(),
